@@ -526,3 +526,160 @@ pub fn check_c13(sc: &Scenario, rr: &RunResult) -> Vec<Violation> {
     }
     v
 }
+
+/// C05 black box: IDs seen by the server. Valid for every family without duplicate/late traffic.
+pub fn check_c05_blackbox(sc: &Scenario, rr: &RunResult) -> Vec<Violation> {
+    let mut v = vec![];
+    let phantoms: std::collections::BTreeSet<i64> = sc.id_table.as_ref().map(|t| t.1.iter().map(|x| *x as i64).collect()).unwrap_or_default();
+    // when does the call that owns `token` stop being outstanding? (event seq)
+    let rets = returns_by_step(&rr.hist);
+    let mut end_of: BTreeMap<String, u64> = BTreeMap::new();
+    for (c, cs) in sc.clients.iter().enumerate() {
+        for (ix, st) in cs.steps.iter().enumerate() {
+            match st {
+                Step::Op { token, .. } => {
+                    if let Some((_, _, _, seq)) = rets.get(&(c, ix)) {
+                        end_of.insert(token.clone(), *seq);
+                    }
+                }
+                Step::Open { token, slot, .. } => {
+                    // outstanding until the stream is finished (or the open failed)
+                    let mut end = None;
+                    if let Some((Ret::Err(_), _, _, seq)) = rets.get(&(c, ix)) {
+                        end = Some(*seq);
+                    }
+                    if end.is_none() {
+                        for (off, later) in cs.steps[ix + 1..].iter().enumerate() {
+                            match later {
+                                Step::Finish { slot: s2 } if s2 == slot => {
+                                    end = rets.get(&(c, ix + 1 + off)).map(|x| x.3);
+                                    break;
+                                }
+                                Step::Open { slot: s2, .. } if s2 == slot => break,
+                                _ => {}
+                            }
+                        }
+                    }
+                    if let Some(e) = end {
+                        end_of.insert(token.clone(), e);
+                    }
+                }
+                _ => {}
+            }
+        }
+    }
+    // an operation also stops being outstanding once its final response has been delivered to the
+    // client's transport (the driver releases the ID when it routes that response)
+    let mut final_end: BTreeMap<String, usize> = BTreeMap::new();
+    for e in &rr.hist {
+        if let EvKind::SrvEmit { label, range, .. } = &e.kind {
+            if let Some(tok) = label.strip_suffix(":reply").or_else(|| label.strip_suffix(":done")) {
+                final_end.insert(tok.to_string(), range.1);
+            }
+        }
+    }
+    for e in &rr.hist {
+        if let EvKind::NetDeliver { upto } = &e.kind {
+            for (tok, end) in &final_end {
+                if *upto >= *end {
+                    let cur = end_of.get(tok).copied();
+                    if cur.map_or(true, |c| c > e.seq) {
+                        end_of.insert(tok.clone(), e.seq);
+                    }
+                }
+            }
+        }
+    }
+    let mut seen: Vec<(i64, String, String, u64)> = vec![]; // id, token, kind, recv seq
+    for e in &rr.hist {
+        if let EvKind::SrvRecv { id, token, kind, .. } = &e.kind {
+            if !(1..=2147483647).contains(id) {
+                v.push(Violation::new("C05", "C05.range", format!("id-out-of-range/{kind}"), format!("request {token} left the client with message ID {id}")));
+            }
+            if phantoms.contains(id) {
+                v.push(Violation::new("C05", "C05.inuse", format!("id-of-in-use-entry/{kind}"), format!("request {token} uses message ID {id}, which was in use (pre-seeded) for the whole run")));
+            }
+            for (id2, tok2, kind2, _) in &seen {
+                if id2 == id {
+                    // is the earlier request still outstanding?
+                    let ended = if kind2 == "abandon" || kind2 == "unbind" { end_of.get(tok2).or(Some(&0)) } else { end_of.get(tok2) };
+                    let outstanding = match ended {
+                        None => true,
+                        Some(s) => *s > e.seq,
+                    };
+                    if outstanding {
+                        v.push(Violation::new(
+                            "C05",
+                            "C05.distinct",
+                            format!("id-shared-with-outstanding/{kind2}+{kind}"),
+                            format!("request {token} ({kind}) uses message ID {id} while {tok2} ({kind2}) with the same ID has not returned to its caller"),
+                        ));
+                    }
+                }
+            }
+            seen.push((*id, token.clone(), kind.clone(), e.seq));
+        }
+    }
+    v
+}
+
+/// C05 white box: table snapshots around the first poll of every operation (hook H4).
+pub fn check_c05_whitebox(_sc: &Scenario, rr: &RunResult) -> Vec<Violation> {
+    let mut v = vec![];
+    let mut prev: Option<(usize, usize, i32, Vec<i32>)> = None;
+    for e in &rr.hist {
+        if let EvKind::AllocSnap { client, step, last, in_use } = &e.kind {
+            match prev.take() {
+                Some((c0, s0, last0, in0)) if c0 == *client && s0 == *step => {
+                    let before: std::collections::BTreeSet<i32> = in0.iter().copied().collect();
+                    let after: std::collections::BTreeSet<i32> = in_use.iter().copied().collect();
+                    let added: Vec<i32> = after.difference(&before).copied().collect();
+                    let removed: Vec<i32> = before.difference(&after).copied().collect();
+                    if added.is_empty() && removed.is_empty() && *last == last0 {
+                        // the call did not allocate (e.g. refused before sending)
+                        continue;
+                    }
+                    let id = *last;
+                    if before.contains(&id) {
+                        v.push(Violation::new("C05", "C05.wb-inuse", "allocated-id-was-in-use", format!("client {client} step {step}: allocated {id} which was in the in-use set")));
+                    }
+                    if !(1..=2147483647).contains(&id) {
+                        v.push(Violation::new("C05", "C05.wb-range", "allocated-id-out-of-range", format!("client {client} step {step}: allocated {id}")));
+                    }
+                    if added != vec![id] || !removed.is_empty() {
+                        v.push(Violation::new("C05", "C05.wb-insert", "allocation-not-recorded", format!("client {client} step {step}: allocated {id}, in-use set changed by +{:?} -{:?}", added, removed)));
+                    }
+                    // upper end: everything from last0+1 to MAX in use (or last0 == MAX) => lowest free ID
+                    let upper_exhausted = last0 == 2147483647 || {
+                        let span = 2147483647i64 - last0 as i64;
+                        span <= before.len() as i64 && (last0 as i64 + 1..=2147483647i64).all(|x| before.contains(&(x as i32)))
+                    };
+                    if upper_exhausted {
+                        let mut low = 1;
+                        while before.contains(&low) {
+                            low += 1;
+                        }
+                        if id != low {
+                            v.push(Violation::new("C05", "C05.wb-wrap", "wrap-not-lowest-free", format!("client {client} step {step}: counter at {last0} with the upper end exhausted; allocated {id}, lowest free ID is {low}")));
+                        }
+                    }
+                }
+                _ => prev = Some((*client, *step, *last, in_use.clone())),
+            }
+        }
+    }
+    v
+}
+
+pub fn check_c05(sc: &Scenario, rr: &RunResult) -> Vec<Violation> {
+    let mut v = check_clean_run("C05", rr);
+    v.extend(check_c05_blackbox(sc, rr));
+    v.extend(check_c05_whitebox(sc, rr));
+    v
+}
+
+pub fn check_c05_mux(sc: &Scenario, rr: &RunResult) -> Vec<Violation> {
+    let mut v = check_clean_run("C05", rr);
+    v.extend(check_c05_blackbox(sc, rr));
+    v
+}
